@@ -628,6 +628,9 @@ func (f *frame) applyContract(at ssa.Instruction, ct *Contract, args []T, st *St
 		}
 	}
 	short := ct.Rel
+	if ct.MayPanic && !hasRecoverDefer(f.fn) && f.panicProneTarget(at) {
+		f.safety(at, "callee-may-panic", st, "false")
+	}
 	for _, r := range ct.Requires {
 		t, err := env.evalBool(r)
 		if err != nil {
@@ -1100,4 +1103,93 @@ func (f *frame) parallelize(at ssa.Instruction, c *ssa.CallCommon, args []T, st 
 			f.hasType("(select (select "+e.H(st, h, hs)+" (sarr "+res.S+")) ppos)", dyn)+"))"))
 	}
 	return []T{res}, true
+}
+
+// hasRecoverDefer reports whether fn defers a closure that calls recover().
+func hasRecoverDefer(fn *ssa.Function) bool {
+	for _, b := range fn.Blocks {
+		for _, ins := range b.Instrs {
+			d, ok := ins.(*ssa.Defer)
+			if !ok {
+				continue
+			}
+			var cl *ssa.Function
+			switch v := d.Call.Value.(type) {
+			case *ssa.MakeClosure:
+				cl, _ = v.Fn.(*ssa.Function)
+			case *ssa.Function:
+				cl = v
+			}
+			if cl == nil {
+				continue
+			}
+			for _, cb := range cl.Blocks {
+				for _, ci := range cb.Instrs {
+					if c, ok := ci.(*ssa.Call); ok {
+						if bi, ok := c.Call.Value.(*ssa.Builtin); ok && bi.Name() == "recover" {
+							return true
+						}
+					}
+				}
+			}
+		}
+	}
+	return false
+}
+
+// panicProneTarget: the decoder panic was observed when the target holds pre-shaped interface values
+// inside structs or slices; a target whose static type reaches no interface type cannot trigger it.
+func (f *frame) panicProneTarget(at ssa.Instruction) bool {
+	ci, ok := at.(ssa.CallInstruction)
+	if !ok {
+		return true
+	}
+	args := ci.Common().Args
+	if len(args) == 0 {
+		return true
+	}
+	v := args[len(args)-1]
+	if ch, ok := v.(*ssa.ChangeInterface); ok {
+		if named, ok := ch.X.Type().(*types.Named); ok && isModuleType(named) && named.Obj().Pkg().Name() == "curve" {
+			return false // a group element held in an interface value: decoded through its UnmarshalBinary
+		}
+	}
+	mi, ok := v.(*ssa.MakeInterface)
+	if !ok {
+		return true // dynamic type unknown
+	}
+	t := mi.X.Type()
+	if p, ok := t.Underlying().(*types.Pointer); ok {
+		t = p.Elem()
+	}
+	if _, ok := t.Underlying().(*types.Interface); ok {
+		return false // a bare interface value at top level is replaced, not filled
+	}
+	return reachesIface(t, map[types.Type]bool{})
+}
+
+func reachesIface(t types.Type, seen map[types.Type]bool) bool {
+	if seen[t] {
+		return false
+	}
+	seen[t] = true
+	switch u := t.Underlying().(type) {
+	case *types.Interface:
+		return true
+	case *types.Pointer:
+		return reachesIface(u.Elem(), seen)
+	case *types.Slice:
+		return reachesIface(u.Elem(), seen)
+	case *types.Array:
+		return reachesIface(u.Elem(), seen)
+	case *types.Map:
+		return reachesIface(u.Key(), seen) || reachesIface(u.Elem(), seen)
+	case *types.Struct:
+		for i := 0; i < u.NumFields(); i++ {
+			if reachesIface(u.Field(i).Type(), seen) {
+				return true
+			}
+		}
+	}
+	return false
 }
